@@ -24,6 +24,7 @@ import (
 	"sort"
 	"sync"
 	"sync/atomic"
+	"time"
 
 	remoteexecution "github.com/bazelbuild/remote-apis/build/bazel/remote/execution/v2"
 	"github.com/buildbarn/bb-storage/pkg/blobstore"
@@ -33,14 +34,18 @@ import (
 	"github.com/buildbarn/bb-storage/pkg/digest"
 	pb "github.com/buildbarn/bb-storage/pkg/proto/configuration/blobstore"
 	bdpb "github.com/buildbarn/bb-storage/pkg/proto/configuration/blockdevice"
+	digestpb "github.com/buildbarn/bb-storage/pkg/proto/configuration/digest"
+	evictionpb "github.com/buildbarn/bb-storage/pkg/proto/configuration/eviction"
 
 	"google.golang.org/protobuf/proto"
+	"google.golang.org/protobuf/types/known/durationpb"
 )
 
 func init() {
 	props["C01W"] = c01w{flavor: "c01w"}
 	props["C05W"] = c01w{flavor: "c05w"}
 	props["C08W"] = c01w{flavor: "c08w"}
+	props["C10W"] = c01w{flavor: "c10w"}
 }
 
 type c01w struct{ flavor string }
@@ -215,8 +220,28 @@ func (c01w) Exec(in Sx) (Sx, bool) {
 	} else {
 		base = configuration.NewCASBlobAccessCreator(nil, 1<<20, nil)
 	}
-	info, err := configuration.NewBlobAccessFromConfiguration(nil,
-		&pb.BlobAccessConfiguration{Backend: &pb.BlobAccessConfiguration_Local{Local: local}},
+	bacfg := &pb.BlobAccessConfiguration{Backend: &pb.BlobAccessConfiguration_Local{Local: local}}
+	if w.Len() >= 16 && w.Nth(15).Int() != 0 {
+		// an existence cache around the store, keyed by the DigestKeyFormat the constructor
+		// reports for it (one hour, 256 entries: never expires or evicts within a case); the
+		// model has no counterpart - with the right key format and no eviction in the store the
+		// cache is transparent (C17's existence_cache_sound) - so such cases keep the store
+		// far from its capacity (the generator's business)
+		if ac {
+			return Sx{}, false
+		}
+		bacfg = &pb.BlobAccessConfiguration{Backend: &pb.BlobAccessConfiguration_ExistenceCaching{
+			ExistenceCaching: &pb.ExistenceCachingBlobAccessConfiguration{
+				Backend: bacfg,
+				ExistenceCache: &digestpb.ExistenceCacheConfiguration{
+					CacheSize:              256,
+					CacheDuration:          durationpb.New(time.Hour),
+					CacheReplacementPolicy: evictionpb.CacheReplacementPolicy_LEAST_RECENTLY_USED,
+				},
+			},
+		}}
+	}
+	info, err := configuration.NewBlobAccessFromConfiguration(nil, bacfg,
 		c01wCreator{BlobAccessCreator: base, negs: &st.negs})
 	if err != nil {
 		return L(A(-3)), true
@@ -276,6 +301,9 @@ func (c01w) Exec(in Sx) (Sx, bool) {
 func (p c01w) Gen(r *Rand, idx int, tier string) Sx {
 	if p.flavor == "c08w" {
 		return c08wGen(r, tier)
+	}
+	if p.flavor == "c10w" {
+		return c10wGen(r, tier)
 	}
 	ac := r.Chance(35)
 	hier := !ac && r.Chance(30)
@@ -617,5 +645,55 @@ func c08wGen(r *Rand, tier string) Sx {
 	}
 	wcfg := L(AB(false), AB(hier), AI(old), AI(cur), AI(nw), AB(true), AI(spare), AI(0), AI(sectorSize), AI(sectorCount),
 		AB(r.Chance(60)), AI(4000+r.Intn(6000)), AI(8+r.Intn(16)), AI(32+r.Intn(64)), AI(fileSize))
+	return L(wcfg, L(objSx...), stAncSx(anc), L(ops...))
+}
+
+// c10wGen: a hierarchical CAS built by the constructor behind an existence cache (C10-g: the cache
+// is keyed by the DigestKeyFormat the constructor reports for the store).  In-memory blocks, far
+// from capacity (at most 8 uploads of at most 16 bytes into 3 new blocks of 64 bytes: no rotation,
+// no eviction, no refresh), uploads under some names, then existence checks and reads of the same
+// objects under every name - first under the uploader's (the positive answer is cached), then
+// under the others.
+func c10wGen(r *Rand, tier string) Sx {
+	anc := stAncTemplates[2+r.Intn(3)]
+	nobj := 3 + r.Intn(3)
+	objs := [][]byte{}
+	for len(objs) < nobj {
+		b := make([]byte, 4+r.Intn(12))
+		for j := range b {
+			b[j] = byte(1 + r.Intn(250))
+		}
+		b[0] = byte(len(objs) + 1)
+		objs = append(objs, b)
+	}
+	nextTid := 0
+	ops := []Sx{}
+	where := make([]int, nobj)
+	for o := 0; o < nobj; o++ {
+		where[o] = r.Intn(len(anc))
+		t := nextTid
+		nextTid++
+		ops = append(ops, L(A(1), AI(t), AI(o), AI(where[o])), L(A(2), AI(t), LBytes(objs[o])), L(A(3), AI(t), A(0)))
+	}
+	for k := 0; k < 6+r.Intn(8); k++ {
+		o := r.Intn(nobj)
+		i := r.Intn(len(anc))
+		if k%2 == 0 {
+			i = where[o] // the uploader's own name first: the answer is cached
+		}
+		if r.Chance(75) {
+			ops = append(ops, L(A(6), L(L(AI(o), AI(i)))))
+		} else {
+			t := nextTid
+			nextTid++
+			ops = append(ops, L(A(4), AI(t), AI(o), AI(i)), L(A(5), AI(t)))
+		}
+	}
+	objSx := []Sx{}
+	for _, o := range objs {
+		objSx = append(objSx, LBytes(o))
+	}
+	wcfg := L(AB(false), AB(true), AI(1+r.Intn(2)), AI(1+r.Intn(2)), A(3), AB(false), A(0), A(64), A(0), A(0),
+		AB(false), AI(4000+r.Intn(6000)), AI(8+r.Intn(16)), AI(32+r.Intn(64)), A(0), A(1))
 	return L(wcfg, L(objSx...), stAncSx(anc), L(ops...))
 }
